@@ -184,6 +184,28 @@ fn writer_case(ctx: &mut Ctx, ops: &[Op], key_seed: u64, every_op: bool) -> Resu
     Ok(reft.length)
 }
 
+/// Every node a replica has persisted (tree file + unflushed oplog entries) must be the
+/// reference node of its index.
+fn check_replica_nodes(ctx: &mut Ctx, world: &std::sync::Arc<std::sync::Mutex<World>>, reft: &RefTree) -> Result<(), Fail> {
+    let rfiles = snapshot(world);
+    let mut rnodes = refimpl::read_tree_file(&rfiles[0]);
+    if let Some(o) = refimpl::read_oplog(&rfiles[3]) {
+        for e in &o.entries {
+            for (i, s, h) in &e.nodes {
+                rnodes.insert(*i, (*s, *h));
+            }
+        }
+    }
+    for (i, (s, h)) in &rnodes {
+        match reft.nodes.get(i) {
+            Some((rs, rh)) if rs == s && rh == h => {}
+            _ => return Err(ops::fail("replica-persisted-node-differs", format!("replica persisted node {i} (size {s}) that is not the reference node of that index"))),
+        }
+        ctx.count("replica_tree_slots_compared");
+    }
+    Ok(())
+}
+
 fn session_case(ctx: &mut Ctx, r: &mut Rng) -> Result<(), Fail> {
     // an honest C03 session, with every proof checked by the independent verifier
     let key_seed = r.next_u64();
@@ -278,6 +300,7 @@ fn session_case(ctx: &mut Ctx, r: &mut Rng) -> Result<(), Fail> {
                     if let Some(q) = crate::mutate::apply(&p, alt) {
                         let _ = crate::repl::apply_proof(sess.pair.replica.core(), &q);
                         ctx.count("corrupted_proofs_offered_to_replica");
+                        check_replica_nodes(ctx, &sess.pair.replica.world, &reft).map_err(|f| ops::fail(format!("{}:after-corrupted-proof", f.sig), format!("after offering a proof altered by {}: {}", alt.kind(), f.detail)))?;
                     }
                 }
                 // only now the replica applies it (its acceptance is C03's business)
@@ -288,24 +311,7 @@ fn session_case(ctx: &mut Ctx, r: &mut Rng) -> Result<(), Fail> {
                     }
                     other => return Err(ops::fail("scenario:replica-refused", format!("{:?}", other.map(|x| x.map_err(|e| e.to_string()))))),
                 }
-                // every node the replica has persisted (tree file + unflushed entries) is the
-                // reference node of its index
-                let rfiles = snapshot(&sess.pair.replica.world);
-                let mut rnodes = refimpl::read_tree_file(&rfiles[0]);
-                if let Some(o) = refimpl::read_oplog(&rfiles[3]) {
-                    for e in &o.entries {
-                        for (i, s, h) in &e.nodes {
-                            rnodes.insert(*i, (*s, *h));
-                        }
-                    }
-                }
-                for (i, (s, h)) in &rnodes {
-                    match reft.nodes.get(i) {
-                        Some((rs, rh)) if rs == s && rh == h => {}
-                        _ => return Err(ops::fail("replica-persisted-node-differs", format!("replica persisted node {i} (size {s}) that is not the reference node of that index"))),
-                    }
-                    ctx.count("replica_tree_slots_compared");
-                }
+                check_replica_nodes(ctx, &sess.pair.replica.world, &reft)?;
             }
         }
     }
